@@ -69,6 +69,8 @@ class Profile:
     push_pop_user: bool = False
     calls_in_for_list: bool = False                 # known finding F-C06-a (ra clobbered inside the for-list body subroutine)
     max_globals: int = 4
+    call_heavy: bool = False                        # more nested calls and early returns (C06 / C01 call paths)
+    named_constants: bool = True                    # module-level single-assignment constants used by name (folded by the transpiler)
     max_index_list: int = 5                         # known finding F-C01-f (jump table for 6 and more elements picks the neighbour)
     max_stmts: int = 7
     max_depth: int = 2
@@ -173,6 +175,7 @@ class Gen:
         self.used_names = set()
         self.calls_of: dict[str, int] = {}
         self.all_globals: set[str] = set()
+        self.named_consts: list = []
         self.cur_func_index = None
 
     # -- helpers ---------------------------------------------------------------------------
@@ -186,7 +189,19 @@ class Gen:
     def const(self):
         c = float(self.r.choice(self.consts))
         self.pool.update([c, c + 1, c - 1])
+        if self.p.named_constants and self.r.random() < 0.15:
+            return self.named(c)
         return ("num", c)
+
+    def named(self, c: float):
+        """a module-level constant `K<n> = c` used by name: to the reference semantics it is the number"""
+        for nm, v in self.named_consts:
+            if v == c:
+                return ("num", c, {"name": nm})
+        nm = f"K{len(self.named_consts) + 1}"
+        self.named_consts.append((nm, c))
+        self.decls.append(f"{nm} = {pynum(c)}")
+        return ("num", c, {"name": nm})
 
     # -- expressions -----------------------------------------------------------------------
     def var_ref(self, sc: Scope):
@@ -388,6 +403,10 @@ class Gen:
         e = self.expr(sc, 0)
         if e[0] in ("gvar", "lvar") and not self.p.name_copies:
             e = ("bin", "add", e, self.const())
+        if e[0] == "num":
+            # a variable holding a compile-time constant is folded into its uses; comparisons of such variables
+            # fold to Python booleans (known finding F-C09-a) — constants are used through literals / K-names instead
+            e = self.read_expr(sc, 0)
         if sc.is_func:
             # local (new or existing) — never a parameter-less global write without `global`
             if sc.locals_ and r.random() < 0.7:
@@ -440,6 +459,17 @@ class Gen:
         r = self.r
         k = r.random()
         can_nest = depth < 2
+        if self.p.call_heavy and sc.is_func and r.random() < 0.45:
+            if in_func_ret is not None and self.allow_early_return and r.random() < 0.5:
+                self.feat("early_return")
+                cond = self.bool_expr(sc, 1)
+                if in_func_ret:
+                    return [("ite", cond, [("ret", self.expr(sc, 1, allow_call=False))], [])]
+                return [("ite", cond, [("ret", None)], [])]
+            c = self.call_expr(sc, 1, need_value=False)
+            if c:
+                self.feat("call_stmt")
+                return [("expr", c)]
         if k < 0.30:
             return [self.write_stmt(sc)]
         if k < 0.50:
@@ -516,6 +546,15 @@ class Gen:
                     else:
                         start, stop, step = ("num", float(n)), ("num", 0.0), ("num", -1.0)
                     idx_ok = None
+                if self.p.named_constants and r.random() < 0.35:
+                    which = r.choice(["step", "stop", "start"]) if nargs == 3 else r.choice(["stop", "start"] if nargs == 2 else ["stop"])
+                    if which == "step":
+                        step = self.named(step[1])
+                    elif which == "stop":
+                        stop = self.named(stop[1])
+                    else:
+                        start = self.named(start[1])
+                    self.feat("for_range_named_const")
                 sc.loopvars.append(lv)
                 if idx_ok:
                     sc.loopvars_int.append((lv, idx_ok))
@@ -744,6 +783,8 @@ PREC = {"or": 1, "and": 2, "not": 3, "slt": 4, "sgt": 4, "sle": 4, "sge": 4, "se
 def pexpr(e, prec=0, fprefix=""):
     t = e[0]
     if t == "num":
+        if len(e) > 2 and isinstance(e[2], dict) and e[2].get("name"):
+            return e[2]["name"]
         s = pynum(e[1])
         return f"({s})" if s.startswith("-") and prec > 5 else s
     if t in ("gvar", "lvar"):
